@@ -625,12 +625,38 @@ class PathResult:
         self.msg = None
 
 
+class PathTimeout(PathAbort):
+    """the code under test did not come back within PATH_TIMEOUT_S seconds on one path (derives from SystemExit,
+    like every PathAbort: the library's own `except Exception` must not swallow it)"""
+
+    def __init__(self, msg):
+        PathAbort.__init__(self, "timeout", msg)
+
+
+PATH_TIMEOUT_S = int(os.environ.get("VERIF_PATH_TIMEOUT", "30"))
+
+
+def _alarm(signum, frame):
+    raise PathTimeout("no answer after %d s on a single path (infinite loop in the code under test?)"
+                      % PATH_TIMEOUT_S)
+
+
+def _arm(seconds):
+    import signal
+    try:
+        signal.signal(signal.SIGALRM, _alarm)
+        signal.alarm(seconds)
+    except (ValueError, AttributeError):        # not in the main thread / no SIGALRM
+        pass
+
+
 def run_path(harness, eng, allowed=()):
     """Runs the harness once under engine eng; always tears down afterwards."""
     res = PathResult("ok")
     STATE.eng = eng
     STATE.dead = False
     gc.disable()
+    _arm(PATH_TIMEOUT_S)
     try:
         try:
             harness(eng)
@@ -647,6 +673,14 @@ def run_path(harness, eng, allowed=()):
                 res.values = eng.take_cex()
             except BaseException as e:     # noqa
                 res.outcome, res.kind, res.msg = "abort", "unknown", "no model: %r" % (e,)
+        except PathTimeout as a:
+            _arm(0)
+            res.outcome = "violation"
+            res.what = "does not terminate: " + a.msg
+            try:
+                res.values = eng.model_values()
+            except BaseException as e2:  # noqa
+                res.outcome, res.kind, res.msg = "abort", "unknown", "no model: %r" % (e2,)
         except PathAbort as a:
             res.outcome, res.kind, res.msg = "abort", a.kind, a.msg
         except RecursionError as e:
@@ -664,6 +698,7 @@ def run_path(harness, eng, allowed=()):
                 except BaseException as e2:  # noqa
                     res.outcome, res.kind, res.msg = "abort", "unknown", "no model: %r" % (e2,)
     finally:
+        _arm(0)
         res.trail = eng.trail
         _teardown()
         gc.enable()
@@ -793,12 +828,16 @@ def run_concrete(harness, values):
     api = ConcreteAPI(values)
     STATE.eng = None
     STATE.concrete = api
+    _arm(PATH_TIMEOUT_S)
     try:
         try:
             harness(api)
             return "ok", None, None, api
         except Violation as v:
             return "violation", v.what, v.detail, api
+        except PathTimeout as a:
+            _arm(0)
+            return "violation", "does not terminate: " + a.msg, None, api
         except PathAbort as a:
             return "abort:" + str(a.kind), a.msg, None, api
         except Exception as e:
@@ -806,6 +845,7 @@ def run_concrete(harness, values):
             return "violation", "unexpected exception: %s: %s" % (type(e).__name__, e), \
                 traceback.format_exc(limit=12), api
     finally:
+        _arm(0)
         STATE.concrete = None
         for fn in list(_cleanups):
             try:
